@@ -75,6 +75,11 @@ let dispatch (a : string array) =
     if nri c <> nri x || nci c <> nci y then die "C dims";
     if op = "addmul" || op = "addmul_mp" then (if i 5 < 0 then die "cutoff");
     deliver a.(1) a.(2) (madd c (mmul x y))
+  | "_mul_naive" ->
+    (* _mul_naive RET C A Bt clear : the cubic kernel on the pre-transposed second factor *)
+    let c = m 2 and x = m 3 and y = m 4 in
+    let base = if i 5 <> 0 then zero_like c else c in
+    deliver a.(1) a.(2) (madd base (mmul x (mtrans y)))
   | "mul_va" ->
     let c = m 2 and x = m 3 and y = m 4 in
     let base = if i 5 <> 0 then zero_like c else c in
